@@ -37,10 +37,11 @@ impl Read for SchedReader {
     }
 }
 
-fn cres(r: &Option<Result<Vec<u8>, ()>>) -> (String, Value) {
+fn cres(r: &Option<Result<Vec<u8>, Vec<u8>>>) -> (String, Value) {
     match r {
         None => ("RPanic".into(), json!("panic")),
-        Some(Err(())) => ("RErr".into(), json!("err")),
+        // an error carries the bytes the earlier, successful read calls had delivered
+        Some(Err(p)) => (format!("(RErr {})", cbytes(p)), json!({ "err": jbytes(p) })),
         Some(Ok(v)) => (format!("(ROk {})", cbytes(v)), json!({ "ok": jbytes(v) })),
     }
 }
@@ -50,12 +51,12 @@ pub fn run(input: &Value) -> Case {
     if kind == "enc" {
         let chunks: Vec<Vec<u8>> = input["chunks"].as_array().unwrap().iter().map(vbytes).collect();
         let c2 = chunks.clone();
-        let r = catch(move || -> Result<Vec<u8>, ()> {
+        let r = catch(move || -> Result<Vec<u8>, Vec<u8>> {
             let mut e = Base64Encoder::new(Vec::new());
             for c in &c2 {
-                e.write_all(c).map_err(|_| ())?;
+                e.write_all(c).map_err(|_| vec![])?;
             }
-            e.finish().map_err(|_| ())
+            e.finish().map_err(|_| vec![])
         });
         let (rc, rj) = cres(&r);
         let total: usize = chunks.iter().map(|c| c.len()).sum();
@@ -73,7 +74,7 @@ pub fn run(input: &Value) -> Case {
         let dests = vusizes(&input["dests"]);
         let orig = if input["orig"].is_null() { None } else { Some(vbytes(&input["orig"])) };
         let (t2, s2, d2) = (text.clone(), sched.clone(), dests.clone());
-        let r = catch(move || -> Result<Vec<u8>, ()> {
+        let r = catch(move || -> Result<Vec<u8>, Vec<u8>> {
             let mut dec = Base64Decoder::new(SchedReader { data: t2, pos: 0, sched: s2, k: 0 });
             let mut acc = vec![];
             let mut k = 0usize;
@@ -84,7 +85,7 @@ pub fn run(input: &Value) -> Case {
                 match dec.read(&mut buf) {
                     Ok(0) => return Ok(acc),
                     Ok(n) => acc.extend_from_slice(&buf[..n]),
-                    Err(_) => return Err(()),
+                    Err(_) => return Err(acc),
                 }
             }
         });
@@ -95,7 +96,7 @@ pub fn run(input: &Value) -> Case {
         let kindtag = if orig.is_some() { "dec.valid" } else { "dec.malformed" };
         let restag = match &r {
             None => "dec.res=panic",
-            Some(Err(_)) => "dec.res=err",
+            Some(Err(p)) => if p.is_empty() { "dec.res=err" } else { "dec.res=err-after-output" },
             Some(Ok(_)) => "dec.res=ok",
         };
         Case {
@@ -199,7 +200,8 @@ pub fn generate(rng: &mut Rng, n: usize, _tier: &str) -> Vec<Value> {
             }
             _ => {
                 // malformed stream: truncated / garbage / padding in odd places
-                let len = gen_len(rng) % 80;
+                // half of them long enough that some output is delivered before the error is met
+                let len = if rng.chance(1, 2) { gen_len(rng) % 80 } else { 60 + gen_len(rng) };
                 let x = rng.bytes(len);
                 let mut t = ref_encode(&x);
                 match rng.below(5) {
